@@ -33,9 +33,12 @@ class Whole(Unit):
     functions = ("pulsarbat.transforms.transforms:snippet", "pulsarbat.core:Signal._time_slice", "pulsarbat.core:Signal.__getitem__")
     witnesses = 2
 
-    def __init__(self, clsname, form, with_t0=True, rate="kHz"):
-        self.clsname, self.form, self.with_t0, self.rate = clsname, form, with_t0, rate
-        self.name = f"whole-{clsname}-{form}{'' if with_t0 else '-not0'}" + (f"-{rate}" if form != "count" else "")
+    TUNITS = {"s": (u.s, Fraction(1)), "ms": (u.ms, Fraction(1000)), "us": (u.us, Fraction(10**6)), "min": (u.min, Fraction(1, 60))}
+
+    def __init__(self, clsname, form, with_t0=True, rate="kHz", tunit="s"):
+        self.clsname, self.form, self.with_t0, self.rate, self.tunit = clsname, form, with_t0, rate, tunit
+        self.name = f"whole-{clsname}-{form}{'' if with_t0 else '-not0'}" + (f"-{rate}" if form != "count" else "") + \
+                    (f"-{tunit}" if tunit != "s" else "")
         self.bounds = {"class": clsname, "t_given_as": form, "start_time": with_t0, "N<=": "2^62",
                        "sample_rate": "symbolic" if form == "count" else str(RATES[rate][0])}
 
@@ -65,7 +68,8 @@ class Whole(Unit):
         if self.form == "count":
             targ = t
         elif self.form == "duration":
-            targ = S.quantity(t * dt if S.symbolic else float(t * dt), u.s)
+            tu, tf = self.TUNITS[self.tunit]
+            targ = S.quantity(t * (dt * tf) if S.symbolic else float(t * dt * tf), tu)
         else:
             if S.symbolic:
                 base = t0v if t0v is not None else 0
@@ -216,6 +220,9 @@ def units(tier):
         if tier != "quick" or i % 2 == 0:
             us.append(Whole(cn, "duration", with_t0=True, rate=("kHz", "MHz")[i % 2]))
             us.append(Whole(cn, "time", with_t0=True, rate=("MHz", "kHz")[i % 2]))
+    us.append(Whole("Signal", "duration", rate="kHz", tunit="ms"))
+    us.append(Whole("BasebandSignal", "duration", rate="MHz", tunit="us"))
+    us.append(Whole("RadioSignal", "duration", rate="kHz", tunit="min"))
     us.append(Whole("Signal", "time", with_t0=False))
     us.append(Whole("BasebandSignal", "duration", with_t0=False, rate="MHz"))
     for N in ((2, 4) if tier == "quick" else (1, 2, 3, 4)):
